@@ -62,22 +62,37 @@ example : IsRoot witnessStore 0 ∧ occurs 8 witnessStore 0 witnessB = some true
 `find` / `resolve` / `convert` terminate.
    PROVED below for the model `Unify.unify` with the guard table generated from
 the source: any answer of `unify_inner` — `Some` or `None` — leaves an acyclic
-store acyclic (for every fuel, every `Defs`), and in an acyclic store whose
-variables all exist `find_ref` returns from every index.
-   MISSING: (1) the model looks variables up without the path compression of
-`UnionFind::find` (shown separately to be harmless for one lookup:
-`Unify.findCompress`, not threaded through `unify`); (2) in the four arms that
-bind a record variable the model gives up if the variable is no longer unset
-after `unify_fields` (believed unreachable; not proved); (3) termination of
-the DEEP traversals (`Type::display`, `TypeInfo::convert`: `Unify.walk`) is
-not derived here from acyclicity. All three are covered by the crash oracle
+store acyclic (for every fuel, every `Defs`); in an acyclic store whose
+variables all exist `find_ref` returns from every index, and every deep
+traversal (`Unify.walk`: resolve, then walk into every child — the recursion
+scheme of `Type::display`, `TypeInfo::convert`, `occurs`) returns from every
+type; one `UnionFind::find` WITH path compression returns what `find_ref`
+returns and leaves the store acyclic (`find_compression_harmless`).
+   MISSING: (1) path compression is proved harmless for one lookup but is not
+threaded through the model of `unify_inner` (it looks variables up like
+`find_ref`); (2) in the four arms that bind a record variable the model gives
+up if the variable is no longer unset after `unify_fields` (believed
+unreachable; not proved); (3) no differential run of the Lean `unify` against
+the real one (the tie is the generated facts). Covered by the crash oracle
 (boundary stream `cyclic-type`). -/
 theorem unify_terminates_partial (D : Defs) (f : Nat) (σ σ' : Store) (a b : Ty) (r : Option Ty)
     (hσ : Acyclic σ) (h : unify setGuard D f σ a b = some (r, σ')) :
     Acyclic σ' ∧
-    (Closed σ' → ∀ i, i < σ'.length → ∃ f t, findRef f σ' i = some t) :=
+    (Closed σ' →
+      (∀ i, i < σ'.length → ∃ f t, findRef f σ' i = some t) ∧
+      (∀ t, (∀ v ∈ subVars t, v < σ'.length) → ∃ f, walk f σ' t = some ())) :=
   have h' := (unify_acyclic_aux setGuard guards_ok D f).1 σ a b r σ' hσ h
-  ⟨h', fun hc => findRef_terminates h' hc⟩
+  ⟨h', fun hc => ⟨findRef_terminates h' hc, fun t ht => walk_terminates h' hc t ht⟩⟩
+
+/-- `UnionFind::find` with its path compression (`self.inner[index] =
+new_t.clone()` on the way back): it returns what `find_ref` returns and the
+compressed store is acyclic again. -/
+theorem find_compression_harmless (f : Nat) (σ σ' : Store) (i : Nat) (t : Ty) (hσ : Acyclic σ)
+    (h : findCompress f σ i = some (t, σ')) : Acyclic σ' ∧ findRef f σ i = some t :=
+  findCompress_acyclic hσ h
+
+/-- non-vacuity: a chain `2 → 1 → 0` is compressed to `2 → 0`, `1 → 0` -/
+example : findCompress 3 [.var 0, .var 0, .var 1] 2 = some (.var 0, [.var 0, .var 0, .var 0]) := rfl
 
 /-- non-vacuity: the witness store is acyclic, and the repaired `unify_inner`
 answers `None` on it without touching the store. -/
